@@ -71,6 +71,7 @@ def run(ctx):
     nscen = 60 if ctx.quick else 600
     for variant in (["default", "asan"] if ctx.quick else ["default", "asan", "sim"]):
         exe = build.driver("drv_thread", ["drv_thread.c"], variant=variant)
+        qenv = {"VERIF_QUARANTINE": "1"} if variant != "asan" else None
         for batch in range(3 if ctx.quick else 12):
             lines = []
             for _ in range(nscen // 3 if ctx.quick else nscen // 12):
@@ -78,12 +79,12 @@ def run(ctx):
             sp = ctx.path("th_%s_%d.script" % (variant, batch))
             open(sp, "w").write("\n".join(lines) + "\n")
             base = ctx.path("th_%s_%d" % (variant, batch))
-            rc, out, to = run_driver([exe, sp, base], timeout=120)
+            rc, out, to = run_driver([exe, sp, base], timeout=120, env=qenv)
             if to or rc != 0:
                 for f in os.listdir(ctx.rundir):
                     if f.startswith("th_%s_%d." % (variant, batch)) and not f.endswith(".script"):
                         os.unlink(ctx.path(f))
-                rc, out, to = run_driver([exe, sp, base], timeout=120)
+                rc, out, to = run_driver([exe, sp, base], timeout=120, env=qenv)
                 if to or rc != 0:
                     kind = "hang" if to else ("memory-error" if "Sanitizer" in out else "crash")
                     ctx.violation("%s:%s" % (variant, kind), "thread scenarios (%s build): %s: %s" % (variant, kind, out[-600:]), [sp])
